@@ -9,7 +9,7 @@ MANIFEST = {
     "C06": {
         "technique": "Lean 4 proof (copy-on-write heap model of String: reference-count invariant, refinement of every mutating call to independent byte-list values, terminator/foreign-memory invariants, libc search functions against declarative references) + differential correspondence model vs real String.hpp/String.cpp under ASan/UBSan with an independent Python bytes oracle",
         "text": "Theorems over all operation histories of the Lean model of String (lazy-copy heap with reference counts, literal/attached foreign memory, detach with capacity rule); the model is tied to the current String.hpp/String.cpp on every run by executing identical op lines on both (exhaustive small scope incl. self arguments, every small byte string as argument of every query, random histories of up to 60 ops over 4 variables) and by an independent Python `bytes` reference.",
-        "note": "Proved in Lean (Props.lean, all for every number of variables, every foreign-memory content and every history): reference counts exact (refcount_exact), refinement of all 29 mutating calls to independent byte lists (refines, run_total) on the domain of the specification (calls that branch on chars get specified chars, C-string based calls NUL-free values), independence of copies incl. self arguments (independent), literal/attached memory and guard byte never written (foreign_untouched), owned text always NUL-terminated and the C string view terminated (owned_terminated, cstr_terminated), absence of faults and termination of every mutating call under exactly stated preconditions (no_fault, run_total) and of the comparisons/searches/split (no_fault_queries), (no_fault_queries, no_fault_queries_from), query results against declarative references (find/findLast/findOneOf/findLastOf/compare/compare(n)/compareIgnoreCase/equalsIgnoreCase/trim/split/find(char)/==/startsWith/endsWith/start-index searches/toBool). plus compareIgnoreCase(n), hash, the generated case maps (case_maps), the extended operations with the shared token list and String(ptr,len) operands (xrefines) and own-pointer arguments (prepend_alias_safe, append_alias_reserved, alias_append_faults). token(sep, start) with its new start and the iteration = split law (token_spec, token_iteration_spec), substr clamping stated independently (substr_spec); all theorems assume only the invariant Good, which is closed under every call incl. queries and extended operations (good_closed). No OPEN item. Precondition stated in the theorems: (ptr,len)/const char* arguments do not point into the storage of the String being modified (String.hpp promises nothing; append with such a pointer is a use-after-free when it reallocates). Case maps, capacity mask, printf buffer and replace slack are regenerated from the sources by tools/gen_str.py. Trusted: Lean kernel + the three standard axioms; the hand translation of String.hpp/String.cpp (with fixes/str applied) into the model, validated by the correspondence run, not proved; libc (strstr, strpbrk, strchr, memcmp, vsnprintf for %d %u %lld %llu %s %c) as Lean definitions of C-standard behaviour on NUL-terminated inputs; checked-memory abstraction (blocks are separate; uninitialised chars may be copied but not branched on; chars exposed by in-place growth are treated as unspecified; the partial output of printf's first vsnprintf attempt is not modelled since the second one overwrites it); pointer arguments (ptr,len / const char*) do not alias the string's own storage; allocation never fails; one thread (reference counts are plain numbers).",
+        "note": "Proved in Lean (Props.lean, all for every number of variables, every foreign-memory content and every history): reference counts exact (refcount_exact), refinement of all 39 mutating calls (extension round: + operator+= (String/char), operator+ (String/literal), fromCString x2, fromBool, fromInt/UInt/Int64/UInt64, fromPrintf) to independent byte lists (refines, run_total) on the domain of the specification (calls that branch on chars get specified chars, C-string based calls NUL-free values), independence of copies incl. self arguments (independent), literal/attached memory and guard byte never written (foreign_untouched), owned text always NUL-terminated and the C string view terminated (owned_terminated, cstr_terminated), absence of faults and termination of every mutating call under exactly stated preconditions (no_fault, run_total) and of the comparisons/searches/split (no_fault_queries), (no_fault_queries, no_fault_queries_from), query results against declarative references (find/findLast/findOneOf/findLastOf/compare/compare(n)/compareIgnoreCase/equalsIgnoreCase/trim/split/find(char)/==/startsWith/endsWith/start-index searches/toBool). plus compareIgnoreCase(n), hash, the generated case maps (case_maps), the extended operations with the shared token list and String(ptr,len) operands (xrefines) and own-pointer arguments (prepend_alias_safe, append_alias_reserved, alias_append_faults). token(sep, start) with its new start and the iteration = split law (token_spec, token_iteration_spec), substr clamping stated independently (substr_spec); all theorems assume only the invariant Good, which is closed under every call incl. queries and extended operations (good_closed). Extension round: printf/fromPrintf model both vsnprintf attempts (the truncated first store stays in the block while len is 0; eff_detach_dirty restores the invariant); queries_more_spec (< <= > >=, !=, equalsIgnoreCase(n), isEmpty, split(HashSet)), capacity_spec (capacity() is 0 or >= length(); after reserve(n) >= n), static_helpers_spec (static compare/compareIgnoreCase/length/find... on C strings), attach_alias_spec and alias_attach_printf_cases (attach/printf with a pointer into the String's own storage: sub-range of foreign memory is fine, own exclusively owned block is a fault). No OPEN item in Props.lean; not modelled: scanf, fromDouble, printf directives beyond %d %u %lld %llu %s %c; modelled and tied but without a Props theorem: ==/!= with a literal, compare(n) static forms, static startsWith, isSpace, the <cctype> wrappers (definitions of the C locale are an assumption). Precondition stated in the theorems: (ptr,len)/const char* arguments do not point into the storage of the String being modified (String.hpp promises nothing; append with such a pointer is a use-after-free when it reallocates). Case maps, capacity masks, printf/fromPrintf buffers, replace slack, default arguments of trim/substr/split, isSpace bounds, fromBool literals and the hash multiplier are regenerated from the sources by tools/gen_str.py. Trusted: Lean kernel + the three standard axioms; the hand translation of String.hpp/String.cpp (with fixes/str applied) into the model, validated by the correspondence run, not proved; libc (strstr, strpbrk, strchr, memcmp, vsnprintf for %d %u %lld %llu %s %c) as Lean definitions of C-standard behaviour on NUL-terminated inputs; checked-memory abstraction (blocks are separate; uninitialised chars may be copied but not branched on; chars exposed by in-place growth are treated as unspecified); pointer arguments (ptr,len / const char*) do not alias the string's own storage; allocation never fails; one thread (reference counts are plain numbers).",
         "design_ref": "DESIGN.md 3/C06",
     }
 }
@@ -700,6 +700,12 @@ def special_histories():
         chars += [f"isSpace {c}", f"toLowerC {c}", f"toUpperC {c}"] + [f"ctype {k} {c}" for k in
                   ("alnum", "alpha", "digit", "lower", "print", "punct", "upper", "xdigit")]
     hs += [chars[i:i + 704] for i in range(0, len(chars), 704)]
+    # replace with self-overlapping needles (matches are taken left to right, non-overlapping)
+    for subj, nd in (("616161", "6161"), ("61616161", "6161"), ("6161616161", "616161"), ("6162616261", "616261"),
+                     ("61626162616261", "616261"), ("612f612f61", "612f61"), ("2f2f2f", "2f2f")):
+        for rp in ("-", "78", nd, "78797a7879"):
+            hs.append([f"ptr 0 {subj}", "assign 1 0", f"replaceL 0 {nd} {rp}", f"ptr 2 {nd}", f"ptr 3 {rp}", "replaceS 1 2 3",
+                       "eq 0 1", "capacity 0"])
     hs += alias_histories()
     return hs
 
@@ -852,7 +858,8 @@ def histories_for(ctx):
         f"query scope: every byte string over {{a,b,'/',' ',0x80}} of length <= {2 if quick else 3} as subject (owned, shared{'' if quick else ', copied'}) x every such string "
         f"of length <= {2 if quick else 3}{'' if quick else ' (and subjects <= 2 x arguments <= 4)'} as argument of every query/search/split/trim/replace/token op at every start index ({len(qs)} histories) + "
         f"every sub-range of the 4 foreign regions as attached subject x arguments of length <= {1 if quick else 2} ({len(fq)}) + "
-        f"{len(sp)} special (toBool table, all 255 bytes through the case maps, printf around the 200-char buffer) + "
+        f"{len(sp)} special (toBool table, all 255 bytes through the case maps, printf/fromPrintf around the 200-char buffer, number factories at their extremes, "
+        f"isSpace/toLowerCase/toUpperCase/<cctype> over all 256 chars, replace with self-overlapping needles, own-pointer attach/printf on every terminated foreign sub-range) + "
         f"{len(bd)} capacity-boundary histories (every growing call x needed capacity = cap-1..cap+2 x exclusive/shared block, printf around its buffer, "
         f"replace around its result slack; histogram in branch_hits.detach_capacity_boundary) + "
         f"{len(ti)} token iterations (`while(start < length()) token(seps, start)` on every small subject, the returned start fed back, followed by split) + "
@@ -867,7 +874,8 @@ def histories_for(ctx):
 ASSUMPTIONS = [
     "memory model of the Lean model: every heap block / literal / attached range is a separate block, loads are range-checked, branching on an uninitialised char is a fault, chars exposed by in-place growth are unspecified",
     "libc functions (strstr, strpbrk, strchr, memcmp, vsnprintf with %d %u %lld %llu %s %c) behave as the C standard says on NUL-terminated inputs (Lean definitions strstrL, strpbrkL, strchrL, strcmpL, render)",
-    "arguments passed as pointer (ptr,len / const char*) do not point into the string's own storage; String arguments may be the string itself",
+    "arguments passed as pointer (ptr,len / const char*) do not point into the string's own storage (the own-pointer forms of append/prepend/attach/printf are modelled separately: appendAlias, prependAlias, attachAlias, printfAlias); String arguments may be the string itself",
+    "<cctype> functions (isalnum … isxdigit) behave as in the \"C\" locale",
     "attached memory has one readable byte behind the attached range (documented contract of attach: str[len] is read by the C string view)",
     "token(const char*, start) is called with start <= length(); C-string arguments are NUL-free",
     "allocation never fails; one thread (reference counts are plain numbers, release logic itself belongs to C09)",
